@@ -55,6 +55,41 @@ impl TryRng for ConcRng {
 }
 impl TryCryptoRng for ConcRng {}
 
+/// hands out one recorded answer; any further (or differently sized) request gets the encoding
+/// of a small value, so that rejection-sampling loops terminate, and is flagged
+struct OnceRng {
+    bytes: Vec<u8>,
+    used: usize,
+    mismatch: bool,
+}
+impl TryRng for OnceRng {
+    type Error = Infallible;
+    fn try_next_u32(&mut self) -> Result<u32, Infallible> {
+        let mut b = [0u8; 4];
+        self.try_fill_bytes(&mut b)?;
+        Ok(u32::from_le_bytes(b))
+    }
+    fn try_next_u64(&mut self) -> Result<u64, Infallible> {
+        let mut b = [0u8; 8];
+        self.try_fill_bytes(&mut b)?;
+        Ok(u64::from_le_bytes(b))
+    }
+    fn try_fill_bytes(&mut self, dst: &mut [u8]) -> Result<(), Infallible> {
+        self.used += 1;
+        if self.used == 1 && dst.len() == self.bytes.len() {
+            dst.copy_from_slice(&self.bytes);
+        } else {
+            self.mismatch = true;
+            dst.fill(0);
+            if let Some(m) = dst.get_mut(dst.len() / 2) {
+                *m = 1;
+            }
+        }
+        Ok(())
+    }
+}
+impl TryCryptoRng for OnceRng {}
+
 pub struct ConcLab<C: Ciphersuite> {
     pub rng: ConcRng,
     pub failures: Vec<String>,
@@ -198,8 +233,17 @@ impl<C: Ciphersuite> Lab<C> for ConcLab<C> {
     fn depends_on_draw(&mut self, _out: Scalar<C>, _k: usize, _what: &str) -> bool {
         true
     }
-    fn draw_scalar(&mut self, _k: usize) -> Option<Scalar<C>> {
-        None
+    fn draw_scalar(&mut self, k: usize) -> Option<Scalar<C>> {
+        // the scalar the suite's own `Field::random` makes of the bytes of request k (if that
+        // request has the shape of one accepted scalar draw)
+        use frost_core::{Field, Group};
+        let bytes = self.rng.bytes.get(k)?.clone();
+        let mut once = OnceRng { bytes, used: 0, mismatch: false };
+        let s = <<C::Group as Group>::Field as Field>::random(&mut once);
+        if once.used != 1 || once.mismatch {
+            return None;
+        }
+        Some(s)
     }
     fn cmp_scalars(&mut self, a: Scalar<C>, b: Scalar<C>) -> core::cmp::Ordering {
         use frost_core::{Field, Group};
